@@ -311,7 +311,7 @@ package keeper
 // C04/C06: StakeValidator moves exactly `amount` into the pool, records exactly that much more stake,
 // sets status Staked and (if not jailed) the index entry under the new power
 //@ func (k Keeper) StakeValidator(ctx sdk.Ctx, validator types.Validator, amount sdk.Int)
-//@   props C04 C06 C05
+//@   props C04 C06 C05 C09
 //@   panics_declared
 //@   uses bankinv valinv idxinv queueinv mininv
 //@   requires validator.Address != modaddr("staked_tokens_pool") && len(validator.Address) == 20 && val(amount) < pow2(250)
@@ -327,6 +327,8 @@ package keeper
 //@   ensures amt(auth.bal[validator.Address], pp_denom) == amt(old(auth.bal[validator.Address]), pp_denom) - val(amount)
 //@   ensures amt(auth.bal[modaddr("staked_tokens_pool")], pp_denom) - pos.stakesum == old(amt(auth.bal[modaddr("staked_tokens_pool")], pp_denom) - pos.stakesum)
 //@   ensures auth.supply == old(auth.supply) && pos.sinfohas[validator.Address]
+// C09: an existing signing info - tombstone and jailed-until included - survives a re-stake (seed C09c)
+//@   ensures [sinfo-kept] old(pos.sinfohas[validator.Address]) ==> pos.sinfo[validator.Address] == old(pos.sinfo[validator.Address])
 //@
 //@ func (k Keeper) ValidateValidatorBeginUnstaking(ctx sdk.Ctx, validator types.Validator) (err sdk.Error)
 //@   props C06
